@@ -99,7 +99,7 @@ const maxInt53 = 9007199254740992.0
 var scalars = []interface{}{
 	nil, true, false,
 	0.0, 1.0, -1.0, 0.5, -0.5, 2.0, 3.0, 1e308, -1e308, maxInt53, maxInt53 + 2, 5e-324,
-	"1", "0.5", "-1", "2", "0", "abc", "", "a", "true", " 1", "1 ", "inf", "1e3", "NaN", "0x10", "+1",
+	"1", "0.5", "-1", "2", "0", "abc", "", "a", "true", " 1", "1 ", "inf", "1e3", "NaN", "0x10", "+1", ".5", "5.", "+0.5", "1E3", "-.5e1", "1e999", "0x1p1",
 }
 
 var elemValues = func() []val {
